@@ -856,8 +856,8 @@ def run(ctx):
     ctx.matchers.update(MATCHERS)
     build = common.build_and_audit(PROP, ctx.tier)
     cases = corpus_cases()
-    cases += [gen_case(ctx.rng) for _ in range(ctx.q(360, 6000))]
-    cases += [gen_roundtrip(ctx.rng) for _ in range(ctx.q(16, 300))]
+    cases += [gen_case(ctx.rng) for _ in range(ctx.q(360, 12000))]
+    cases += [gen_roundtrip(ctx.rng) for _ in range(ctx.q(16, 400))]
     cases += [gen_v4(ctx.rng) for _ in range(ctx.q(5, 60))]
     bad = eval_any(ctx, cases)
     if not bad and not build['build_ok']:
